@@ -241,18 +241,17 @@ class _Reused:
         return RequestId.from_pus_tc(self.tc(f))
 
 
-def _lookups_by_value(v: PusVerificator, ids, src, snap, after: str):
-    """`request id in verif_dict` / `verif_dict.get(request id)` answer by the VALUE of the request id: for every id of the
-    history a request id built from its fields (and the one the application took for that command earlier) is found
-    exactly when the dictionary holds an entry with that 32-bit value, and the record found is that entry's"""
+def _lookups_by_value(v: PusVerificator, probes, which, snap, after: str):
+    """`request id in verif_dict` / `verif_dict.get(request id)` answer by the VALUE of the request id: for the ids `which`
+    of the history a request id built from the fields (and the one the application took for that command earlier) is found
+    exactly when the dictionary holds an entry with that 32-bit value, and the record found is that entry's.
+    probes[i] = (32-bit value, [(label, request id), ...])"""
     held = {k: st for k, st in snap}
-    for f in ids:
-        k = int(_req(f).as_u32())
-        probes = [("built from the fields", _req(f))]
-        if src.prepared and tuple(f) in src.rids:
-            probes.append(("taken from the telecommand object when it carried that command", src.rids[tuple(f)]))
-        for label, r in probes:
-            found, rec = r in v.verif_dict, v.verif_dict.get(r)
+    d = v.verif_dict
+    for i in which:
+        k, rs = probes[i]
+        for label, r in rs:
+            found, rec = r in d, d.get(r)
             if found != (k in held) or (rec is None) == found or (rec is not None and _status(rec) != held[k]):
                 saw = "finds nothing" if not found else ("finds the record " + str(None if rec is None else _status(rec)))
                 raise SelfCheckFailure(f"after {after}: the dictionary {'holds' if k in held else 'does not hold'} an entry for request id "
@@ -266,7 +265,15 @@ def op_verif_run(a):
     v = PusVerificator()
     outs: List[Any] = []
     dicts: List[Any] = []
-    for st in a["steps"][: a["n"]]:
+    probes, recent = [], []
+    if objs:
+        for f in ids:
+            rs = [("built from the fields", _req(f))]
+            if src.prepared and tuple(f) in src.rids:
+                rs.append(("taken from the telecommand object when it carried that command", src.rids[tuple(f)]))
+            probes.append((int(rs[0][1].as_u32()), rs))
+    steps = a["steps"][: a["n"]]
+    for st in steps:
         kind = st[0]
         if kind == ADD_TC:
             out = bool(v.add_tc(src.tc(ids[st[1]])))
@@ -305,7 +312,11 @@ def op_verif_run(a):
         outs.append(out)
         dicts.append(_snapshot(v, len(outs)))
         if objs:
-            _lookups_by_value(v, ids, src, dicts[-1], f"call #{len(outs) - 1} of the history (telecommand objects: {objs})")
+            # (all ids of a small table and at the end of the history, otherwise those of the last few calls)
+            if len(st) > 1:
+                recent = [st[1]] + [i for i in recent if i != st[1]][:3]
+            which = range(len(ids)) if len(ids) <= 4 or len(outs) == len(steps) else recent
+            _lookups_by_value(v, probes, which, dicts[-1], f"call #{len(outs) - 1} of the history (telecommand objects: {objs})")
     _TRACKERS.check("C16.tracker", v, _tracker_view)
     return {"outs": outs, "dicts": dicts}
 
@@ -362,7 +373,7 @@ def run_case(ids, steps, tag, tc_objects=None) -> Case:
 
 
 # every REUSE_EVERY-th history of the exhaustive sets is run a second time with one reused telecommand object
-REUSE_EVERY = 7
+REUSE_EVERY = 11
 
 
 def alphabet(n_ids: int, step_vals=(0, 1)) -> List[List[int]]:
@@ -587,15 +598,16 @@ class C16(Prop):
             ids, steps = random_history(rng, n_tc, length, rng.choice([0.0, 0.3, 1.0]), 0.03, 0.15)
             yield run_case(ids, steps, "random-long")
             n_h += 1
-            if n_h % 4 == 0:
-                yield run_case(ids, steps, "random-long", ("reused", "reused-lazy")[(n_h // 4) % 2])
+            if n_h % 6 == 0:
+                yield run_case(ids, steps, "random-long", ("reused", "reused-lazy")[(n_h // 6) % 2])
         # many telecommands, few reports each (dictionary behaviour)
         for _ in range(300 if thorough else 40):
             n_tc = rng.randint(8, 40)
             ids, steps = random_history(rng, n_tc, 3 * n_tc, 0.5, 0.02, 0.3)
             yield run_case(ids, steps, "random-many-tcs")
             n_h += 1
-            yield run_case(ids, steps, "random-many-tcs", ("reused", "reused-lazy")[n_h % 2])
+            if n_h % 2 == 0:
+                yield run_case(ids, steps, "random-many-tcs", ("reused", "reused-lazy")[(n_h // 2) % 2])
         # --- request ids / reports that come from the library's factories are objects of their own (key "fac") ---
         import props.c11 as c11
         for _ in range(20 if thorough else 3):
